@@ -30,7 +30,8 @@ const (
 
 // Payload flags.
 const (
-	FlagRawErr = 1 << iota // error text contains arbitrary (non UTF-8) bytes
+	FlagRawErr     = 1 << iota // error text contains arbitrary (non UTF-8) bytes
+	FlagEmptyReply             // the handler's reply is empty (a body that encodes to nothing under bytes/pb)
 )
 
 var magic = [4]byte{'V', 'R', 'P', 'C'}
@@ -131,6 +132,9 @@ func Reply(args []byte) []byte {
 	s, ok := Parse(args)
 	if !ok {
 		return []byte("BAD-PAYLOAD")
+	}
+	if s.Flags&FlagEmptyReply != 0 {
+		return []byte{}
 	}
 	h := sha256.Sum256(args)
 	out := make([]byte, IDLen+32+int(s.ReplyLen))
